@@ -363,8 +363,10 @@ func (e *Exec) run(c Call) *Event {
 		g0 = runtime.NumGoroutine()
 	}
 	done := make(chan struct{})
+	wdGone := make(chan struct{})
 	if isPar {
 		go func() { // watchdog: a parallel aggregate that never returns is reported, not waited for
+			defer close(wdGone)
 			select {
 			case <-done:
 			case <-time.After(40 * time.Second):
@@ -402,16 +404,14 @@ func (e *Exec) run(c Call) *Event {
 	}
 	if isPar {
 		// goroutine census: everything the call started must be gone (allow the runtime a moment)
+		<-wdGone // the watchdog goroutine itself is gone before counting
 		left := 0
-		for try := 0; try < 200; try++ {
-			left = runtime.NumGoroutine() - g0 - 1 // -1: the watchdog itself may not have exited yet
+		for try := 0; try < 3000; try++ { // up to ~3 s on a loaded machine; normally the first look suffices
+			left = runtime.NumGoroutine() - g0
 			if left <= 0 {
 				break
 			}
 			time.Sleep(time.Millisecond)
-		}
-		if left > 0 {
-			left = runtime.NumGoroutine() - g0
 		}
 		if left < 0 {
 			left = 0
